@@ -159,6 +159,9 @@ def install(mods):
                          after, digest_size=8).hexdigest(),
                      lines=nlines,
                      has_fresh=(after is not None and b'__fresh' in after),
+                     text=(after.decode('utf-8', 'replace')
+                           if after is not None and len(after) <= 6000
+                           and CONFIG.get('write_text') else None),
                      ld=leaf_digest(exprs),
                      td=None if after is None else text_digest(
                          after.decode('utf-8', 'replace')),
@@ -186,10 +189,21 @@ def install(mods):
         def _worker(task):
             base = base_digest(task.exprs)
             res = orig_worker(task)
+            # what the worker really worked on (its private cache of the
+            # unpickled input), if the implementation still keeps one
+            used = None
+            if isinstance(task.exprs, bytes):
+                cached = vars(ddmin).get('__cached_exprs')
+                if cached is not None:
+                    try:
+                        used = leaf_digest(cached)
+                    except Exception:  # noqa
+                        used = None
             emit('derive',
                  strategy='ddmin',
                  task=task.id,
                  base=base,
+                 used_base=used,
                  success=bool(res.success),
                  cand=leaf_digest(res.exprs) if res.success else None,
                  tests=res.tests,
@@ -324,6 +338,49 @@ def install(mods):
 
         nodes.reduplicate = reduplicate
 
+    # ---- adoption / result-consumption markers (C06: the write must follow
+    # the adoption before any further result is consumed)
+    if 'adopt' in mon:
+        orig_redup2 = nodes.reduplicate
+
+        def reduplicate_marked(exprs):
+            out = orig_redup2(exprs)
+            if _STATE.get('in_hier_reduce') and \
+                    threading.current_thread() is threading.main_thread():
+                emit('adopt', strategy='hierarchical', ld=leaf_digest(out))
+            return out
+
+        nodes.reduplicate = reduplicate_marked
+        orig_update = ddmin.TaskGenerator.update
+
+        def update_marked(self, exprs):
+            emit('adopt', strategy='ddmin', ld=leaf_digest(exprs))
+            return orig_update(self, exprs)
+
+        ddmin.TaskGenerator.update = update_marked
+        orig_pp = ddmin._print_progress
+
+        def pp_marked(*a, **kw):
+            emit('consume', strategy='ddmin')
+            return orig_pp(*a, **kw)
+
+        ddmin._print_progress = pp_marked
+
+        class PickleProxy:
+            """strategy_hierarchical.reduce unpickles every result it takes
+            from the pool with pickle.loads"""
+
+            def __getattr__(self, name):
+                return getattr(pickle, name)
+
+            def loads(self, data, *a, **kw):
+                if threading.current_thread() is threading.main_thread() \
+                        and _STATE.get('in_hier_reduce'):
+                    emit('consume', strategy='hierarchical')
+                return pickle.loads(data, *a, **kw)
+
+        hier.pickle = PickleProxy()
+
     # ---- mutator call counting (C14)
     if 'mut' in mon:
         for group, (mod, reg) in mutators.get_all_mutators().items():
@@ -368,7 +425,11 @@ def install(mods):
 
     def hier_reduce(exprs):
         emit('reduce_start', strategy='hierarchical', base=leaf_digest(exprs))
-        out, ntests = orig_hier_reduce(exprs)
+        _STATE['in_hier_reduce'] = True
+        try:
+            out, ntests = orig_hier_reduce(exprs)
+        finally:
+            _STATE['in_hier_reduce'] = False
         emit('final', strategy='hierarchical', ld=leaf_digest(out),
              ntests=ntests)
         if CONFIG.get('sweep'):
